@@ -313,6 +313,9 @@ func checkC09(r *Run) {
 			r.Sample(map[string]interface{}{"history": applied, "option_set": i % 4, "explicit_mtimes": explicitMtime})
 		}
 	})
+	if os.Getenv("VERIF_C09_ONLY") == "" {
+		c09RealWatch(r)
+	}
 	r.Count("history_steps_compared", int(steps))
 	r.Count("steps_where_fresh_result_changed", int(changedSteps))
 	r.Count("watch_predicate_checks", int(watchChecks))
